@@ -25,17 +25,26 @@ TrigSets == {
      [fid |-> "g", tag |-> "d1", kind |-> "event", key |-> "e2", flt |-> Flt1, kw |-> Empty],
      [fid |-> "h", tag |-> "d1", kind |-> "event", key |-> "e1", flt |-> Flt1, kw |-> [v |-> "ovr"]] >> }
 
+Topics == {<<"t", "1">>, <<"t", "2">>}
+MqttSet == << [fid |-> "f", tag |-> "d1", kind |-> "mqtt", key |-> "t/+", lv |-> <<"t", "+">>, flt |-> NoF,  kw |-> Empty],
+              [fid |-> "g", tag |-> "d1", kind |-> "mqtt", key |-> "t/1", lv |-> <<"t", "1">>, flt |-> Flt1, kw |-> Empty],
+              [fid |-> "g", tag |-> "d2", kind |-> "mqtt", key |-> "#",   lv |-> <<"#">>,      flt |-> NoF,  kw |-> Empty] >>
+
 VARIABLES trigs, msgs, bus, q, runs, emitted
 vars == <<trigs, msgs, bus, q, runs, emitted>>
 TI == 1..Len(trigs)
 
-Init == /\ trigs \in TrigSets /\ msgs = <<>> /\ bus = <<>>
+Init == /\ trigs \in TrigSets \cup {MqttSet} /\ msgs = <<>> /\ bus = <<>>
         /\ q = [t \in 1..3 |-> <<>>] /\ runs = <<>> /\ emitted = <<>>
 
-Arrive(key, d) == /\ Len(msgs) < MaxMsgs
+Arrive(key, d) == /\ Len(msgs) < MaxMsgs /\ trigs # MqttSet
                   /\ msgs' = Append(msgs, [kind |-> "event", key |-> key, d |-> d, ctx |-> "c" \o ToString(Len(msgs) + 1)])
                   /\ bus' = Append(bus, Len(msgs) + 1)
                   /\ UNCHANGED <<trigs, q, runs, emitted>>
+ArriveMqtt(lv, d) == /\ Len(msgs) < MaxMsgs /\ trigs = MqttSet
+                     /\ msgs' = Append(msgs, [kind |-> "mqtt", key |-> lv[1] \o "/" \o lv[2], lv |-> lv, d |-> d, ctx |-> "-"])
+                     /\ bus' = Append(bus, Len(msgs) + 1)
+                     /\ UNCHANGED <<trigs, q, runs, emitted>>
 \* the listener fans the message out to every trigger subscribed to its key (its own copy of the data)
 Deliver == /\ bus # <<>>
            /\ LET i == Head(bus) IN
@@ -59,7 +68,7 @@ RunEnd(r) == /\ r \in 1..Len(runs) /\ runs[r].st = "sleeping"
              /\ runs' = [runs EXCEPT ![r].st = "done"]
              /\ UNCHANGED <<trigs, msgs, bus, q, emitted>>
 
-Next == (\E key \in Keys, d \in Data : Arrive(key, d)) \/ Deliver \/ (\E t \in 1..3 : Consume(t))
+Next == (\E key \in Keys, d \in Data : Arrive(key, d)) \/ (\E lv \in Topics, d \in Data : ArriveMqtt(lv, d)) \/ Deliver \/ (\E t \in 1..3 : Consume(t))
         \/ (\E r \in 1..4 : Emit(r) \/ RunEnd(r))
 Spec == Init /\ [][Next]_vars
 
@@ -79,6 +88,7 @@ ContextLineage          == /\ \A k \in 1..Len(runs) : runs[k].parent = msgs[runs
                            /\ \A k \in 1..Len(emitted) : emitted[k].ctx = runs[emitted[k].r].ctx
 DistinctTasks           == \A a, b \in 1..Len(runs) : a # b => runs[a].ctx # runs[b].ctx
 W_NoOverlap == ~\E a, b \in 1..Len(runs) : a < b /\ runs[a].t = runs[b].t /\ runs[a].st = "sleeping" /\ runs[b].st = "sleeping"
+W_NoWildcardRun == \A k \in 1..Len(runs) : trigs[runs[k].t].key = msgs[runs[k].i].key
 W_NoFilterError == \A t \in TI : \A i \in 1..Len(msgs) : EvalR(trigs[t].flt, msgs[i].d) # "E"
 W_NoFiltered == \A t \in TI : \A i \in 1..Len(msgs) : Matches(trigs[t], msgs[i]) => Accepts(trigs[t], msgs[i])
 =============================================================================
